@@ -47,7 +47,33 @@ def writes_are(p, want):
     return None
 
 
+def check_string_length(chk, lib):
+    """the constant-evaluation arm of detail::string_length (a hand-written strlen; the run-time arm calls std::strlen):
+    count characters up to, not including, the first NUL"""
+    import gen
+    import gguard
+    r = R(chk, lib, "ARR.static")
+    fs = [f for f in lib.by_name.get(("", "string_length"), []) if (f.get("base") or "") == "sbepp::detail::string_length"]
+    for f in fs[:1]:
+        errs = []
+        ls = loop_shape(f)
+        loops = [n for n in walk(f["body"]) if n.get("k") == "ForStmt"]
+        if loops:
+            inc = ls[0][2].replace("str++", "++str").replace("length++", "++length")
+            if ls[0][1] not in ("*str != 0", "0 != *str") or "++str" not in inc or "++length" not in inc:
+                errs.append("the constant-evaluation loop must be `for(; *str != 0; str++, length++)`, found %s" % ls)
+            rets = [gguard.opt_norm(gen.expr_text(n["sub"], 0, f)) for n in walk(f["body"]) if n.get("k") == "ReturnStmt" and n.get("sub") is not None]
+            if "length" not in rets or not any(x.startswith("strlen(") for x in rets):
+                errs.append("must return the counted length / std::strlen(str); returns %s" % rets)
+            inits = [n for n in walk(f["body"]) if n.get("k") == "VarDecl" and n.get("name") == "length"]
+            if not inits or gen.expr_text(inits[0].get("init"), 0, f) not in ("{}", "0"):
+                errs.append("length must start at 0")
+        r.done(f, "static.string_length", errs, "detail")
+    return len(fs)
+
+
 def check_static(chk, lib, limit=None):
+    check_string_length(chk, lib)
     r = R(chk, lib, "ARR.static")
     tpl = "sbepp::detail::static_array_ref"
     classes = sorted({f["cls"] for (c, n), fs in lib.by_name.items() if c == tpl for f in fs})
@@ -221,6 +247,23 @@ def check_static(chk, lib, limit=None):
     return len(seenN)
 
 
+def loop_shape(fn):
+    """(init text, condition text, increment text) of every for-loop of fn, in gguard's normal form"""
+    import gen
+    import gguard
+    out = []
+    for n in walk(fn["body"]):
+        if n.get("k") == "ForStmt":
+            init = n.get("init") or {}
+            it = ""
+            for d in init.get("decls") or []:
+                it = "%s = %s" % (d.get("name"), gguard.opt_norm(gen.expr_text(d.get("init"), 0, fn)) if d.get("init") is not None else "")
+            cond = " && ".join(sorted(gguard.norm_cond(n["cond"], True, fn))) if n.get("cond") is not None else ""
+            inc = gguard.opt_norm(gen.expr_text(n["inc"], 0, fn)) if n.get("inc") is not None else ""
+            out.append((it, cond, inc))
+    return out
+
+
 def check_dynamic(chk, lib, limit=None):
     r = R(chk, lib, "ARR.data")
     tpl = "sbepp::detail::dynamic_array_ref"
@@ -326,6 +369,11 @@ def check_dynamic(chk, lib, limit=None):
             else:
                 s = lib.summary(f)
                 errs = []
+                # the loop that initialises the new elements runs over exactly [old size, count): E2 abstracts loop
+                # bounds, so the range is read from the loop header
+                ls = loop_shape(f)
+                if len(ls) != 1 or not (ls[0][0].startswith("i = ") and "size()" in ls[0][0] and ls[0][1] in ("count != i", "i < count") and ls[0][2] in ("i++", "++i")):
+                    errs.append("new elements must be initialised by one loop `for(i = old size; i != count; i++)`, found %s" % ls)
                 for p in s.live:
                     prefix_is(p, cnt, errs, "resize")
                     others = [(a, n) for a, n, _ in wr(p) if a != A]
@@ -405,6 +453,15 @@ def check_dynamic(chk, lib, limit=None):
                 if p.ret is None or lin(p.ret) != pos:
                     errs.append("returns %s" % show(p.ret))
                 r.done(f, "data.insert(pos,v)", errs, tag)
+            elif names == ["pos", "first", "last"] and ps[1]["t"].endswith("*"):
+                d = sym("last") - sym("first")
+                prefix_is(p, LEN + d, errs, "insert(pos,first,last)")
+                w = [(strip_cast(a), strip_cast(n)) for a, n, _ in wr(p) if a != A]
+                if (pos + d, B + LEN - pos) not in w or (pos, d) not in w:
+                    errs.append("tail must move up by last-first and the range be stored at pos: writes %s" % [(show(a), show(n)) for a, n in w])
+                if p.ret is None or lin(p.ret) != pos:
+                    errs.append("returns %s" % show(p.ret))
+                r.done(f, "data.insert(pos,first,last)", errs, tag)
             elif names == ["pos", "count", "value"]:
                 cnt = sym("count")
                 prefix_is(p, LEN + cnt, errs, "insert(pos,n,v)")
@@ -412,6 +469,18 @@ def check_dynamic(chk, lib, limit=None):
                 if (pos + cnt, B + LEN - pos) not in w or (pos, cnt) not in w:
                     errs.append("tail must move up by count and count values be stored at pos: writes %s" % [(show(a), show(n)) for a, n in w])
                 r.done(f, "data.insert(pos,n,v)", errs, tag)
+        for f in m("insert_impl"):
+            ps = f.get("params") or []
+            if len(ps) == 4 and ps[3]["t"].endswith("input_iterator_tag"):
+                ls = loop_shape(f)
+                calls = [(x.get("callee") or {}).get("name") for x in walk(f["body"]) if x.get("callee")]
+                errs = []
+                inc = ls[0][2].replace("op++(first)", "++first").replace("op++(out)", "++out").replace("first++", "++first").replace("out++", "++out") if ls else ""
+                if len(ls) != 1 or ls[0][1] not in ("first != last", "last != first") or "++first" not in inc or "++out" not in inc:
+                    errs.append("single-pass insertion must loop `for(; first != last; ++first, ++out)`, found %s" % ls)
+                if "insert" not in calls:
+                    errs.append("each element must be inserted through insert(out, *first)")
+                r.done(f, "data.insert_impl(input)", errs, tag)
         for f in m("assign"):
             ps = f.get("params") or []
             names = [x["name"] for x in ps]
